@@ -75,6 +75,8 @@ def check_case(case, ctx):
         ctx.violation("aggregator_raised", case, {"error": repr(err1)[:300], "on": "J"})
         ctx.evaluated()
         return
+    if rec1["rand"]:
+        ctx.count("rng_recorder_hits")
     if name == "GradDrop":
         if not rec1["rand"]:
             ctx.not_judged("GradDrop:rand_recorder_not_hit")
@@ -130,3 +132,9 @@ def run_shard(shard, ctx):
 
 def replay(case, ctx):
     check_case(case, ctx)
+
+
+def waivers(counters):
+    if counters.get("rng_recorder_hits", 0) == 0:  # GradDrop's uniform draws not observable: its cases are not judged
+        return {"judged:GradDrop", "pref_judged:GradDrop"}
+    return set()
